@@ -66,8 +66,19 @@ def run_greenlet_case(case) -> dict:
                 want = [ids[id(f)] for f in segs[0]][::-1]
             else:
                 state, gframes, want = "other", [], None
-            st = stackscope.extract(g, with_contexts=False)
+            if call_extract is not None:
+                # the application code that calls extract() lives in a module whose name merely begins with "stackscope"
+                st = call_extract(stackscope, g)
+            else:
+                st = stackscope.extract(g, with_contexts=False)
             fr = [ids.get(id(f.pyframe), -1) for f in st.frames]
+            if call_extract is not None and state == "current":
+                # the true caller is that module's frame: it must be there, as the innermost one (it is not part of the walk
+                # made from this function, so it is taken off before the comparison)
+                if st.frames and st.frames[-1].pyframe.f_code is call_extract.__code__:
+                    fr = fr[:-1]
+                else:
+                    fr = fr + [-2]
             err = ""
             if st.error is not None:
                 err = " error=otherthread" if "running in another thread" in str(st.error) else \
@@ -85,11 +96,21 @@ def run_greenlet_case(case) -> dict:
             out.append((name, obs, q, prob))
         return out
 
+    import functools
+
+    call_extract = None
+    if case.get("caller_module"):
+        ns: Dict[str, Any] = {"__name__": case["caller_module"]}
+        exec("def call_extract(ss, g):\n    return ss.extract(g, with_contexts=False)\n", ns)
+        call_extract = ns["call_extract"]
+
     def body(k, d):
         if d > 0:
             return body(k, d - 1)
         if k + 1 < len(depths):
-            child = greenlet.greenlet(lambda: body(k + 1, depths[k + 1]))
+            # (a partial as run function: with depth 0 the greenlet's entry function is itself the frame that switches)
+            child = greenlet.greenlet(functools.partial(body, k + 1, depths[k + 1]) if case.get("direct", True) else
+                                      (lambda: body(k + 1, depths[k + 1])))
             gl.append(child)
             child.switch()
             return
@@ -100,7 +121,7 @@ def run_greenlet_case(case) -> dict:
         else:
             main.switch()
 
-    g0 = greenlet.greenlet(lambda: body(0, depths[0]))
+    g0 = greenlet.greenlet(functools.partial(body, 0, depths[0]) if case.get("direct", True) else (lambda: body(0, depths[0])))
     gl.append(g0)
     g0.switch()
     if asker == "outside":
@@ -411,8 +432,9 @@ class C15(PropCheck):
         n = 60 if tier == "quick" else 600
         for _ in range(n):
             k = rng.randint(1, 5)
-            out.append({"k": "greenlet", "depths": [rng.randint(0, 6) for _ in range(k)], "asker": rng.choice(["outside", "inside"]),
-                        "outer_depth": rng.randint(0, 3)})
+            out.append({"k": "greenlet", "depths": [rng.choice([0, 0, 1, 2, 3, 6]) for _ in range(k)], "asker": rng.choice(["outside", "inside"]),
+                        "outer_depth": rng.randint(0, 3), "direct": rng.random() < 0.7,
+                        "caller_module": rng.choice([None, None, "stackscope_jobs", "stackscopex.dump"])})
         out.append({"k": "otherthread"})
         for depth in (0, 1, 2):
             out.append({"k": "asyncio_cancel", "depth": depth})
